@@ -147,7 +147,7 @@ def tr_compile(tree):
     if sorted(defs.values()) != sorted(OPNAME.values()):
         fail(f"op definitions found: {defs}")
     order = []
-    call_rev = unpack_rev = None
+    call_rev = unpack_rev = ctrl_list = cap_list = None
     seen_call = False
     for st in f.body:
         if isinstance(st, ast.If) and isinstance(st.test, ast.Call) and isinstance(st.test.func, ast.Attribute) \
@@ -182,16 +182,17 @@ def tr_compile(tree):
                 fail("more than one CallIndirect", st)
             seen_call = True
             args = calls[0].args
-            if len(args) != 4 or ast.unparse(args[1]) != "call" or not isinstance(args[2], ast.Starred) \
-                    or ast.unparse(args[3]) != "*args":
-                fail("CallIndirect arguments: expected (CallIndirect(), call, *<ctrl>, *args)", st)
-            c = ast.unparse(args[2].value)
-            if c == "ctrl_args":
-                call_rev = False
-            elif c == "reversed(ctrl_args)":
-                call_rev = True
+            if len(args) != 4 or not isinstance(args[1], ast.Name) or not isinstance(args[2], ast.Starred) \
+                    or not isinstance(args[3], ast.Starred) or not isinstance(args[3].value, ast.Name):
+                fail("CallIndirect arguments: expected (CallIndirect(), <fn>, *<ctrl>, *<captured>)", st)
+            c = args[2].value
+            if isinstance(c, ast.Name):
+                call_rev, ctrl_list = False, c.id
+            elif isinstance(c, ast.Call) and ast.unparse(c.func) == "reversed" and len(c.args) == 1 and isinstance(c.args[0], ast.Name):
+                call_rev, ctrl_list = True, c.args[0].id
             else:
-                fail("CallIndirect control arguments: " + c, st)
+                fail("CallIndirect control arguments: " + ast.unparse(c), st)
+            cap_list = args[3].value.id
             continue
         if seen_call and isinstance(st, ast.For):
             it = ast.unparse(st.iter)
@@ -214,9 +215,19 @@ def tr_compile(tree):
     if call_rev is None or unpack_rev is None:
         fail("CallIndirect / unpack loop not found")
     # ctrl_args must be built in the order of modified_block.control
-    built = [st for st in f.body if isinstance(st, ast.For) and "ctrl_args.append" in ast.unparse(st)]
+    built = [st for st in f.body if isinstance(st, ast.For) and f"{ctrl_list}.append(" in ast.unparse(st)]
     if len(built) != 1 or ast.unparse(built[0].iter) != "enumerate(modified_block.control)":
-        fail("ctrl_args are not built by one loop over enumerate(modified_block.control)")
+        fail("control arguments are not built by one loop over enumerate(modified_block.control)")
+    inits = [ast.unparse(st.value) for st in f.body if isinstance(st, (ast.Assign, ast.AnnAssign)) and st.value is not None
+             and ast.unparse(st.targets[0] if isinstance(st, ast.Assign) else st.target) == ctrl_list]
+    if inits != ["[]"]:
+        fail(f"control argument list {ctrl_list} is not initialised once to []")
+    caps = [ast.unparse(st.value) for st in f.body if isinstance(st, ast.Assign) and ast.unparse(st.targets[0]) == cap_list]
+    if caps != ["[dfg[v] for v in captured]"]:
+        fail(f"captured arguments {cap_list}: expected [dfg[v] for v in captured], got {caps}")
+    capd = [ast.unparse(st.value) for st in f.body if isinstance(st, ast.Assign) and ast.unparse(st.targets[0]) == "captured"]
+    if capd != ["[v for v, _ in modified_block.captured.values()]", "non_copyable_front_others_back(captured)"]:
+        fail(f"captured: unexpected definition {capd}")
     return order, call_rev, unpack_rev
 
 
